@@ -216,7 +216,7 @@ Proof. exact TurbomoleEcpSpec.tmecp_example. Qed.
 (* ---- GAMESS-US (Model/GamessUs.v, Model/GamessUsEcp.v).  The electron part round-trips exactly for momenta 0..6
    (gus_roundtrip); what comes back for ANY well-formed input is gus_back (gus_roundtrip_letters): the shells up to the first
    whose letter the reader does not know - the recorded known findings "shells with l >= 7 dropped / altered" as a theorem, with
-   the exact letter table.  The whole-file round trip (with ECPs) is proved on a store instance only (gus_ecp_example). ---- *)
+   the exact letter table.  The whole file (electron part + ECPs) round-trips exactly as well (gus_all_roundtrip). ---- *)
 From BSE Require Import Model.GamessUs Proofs.GamessUsDefs Model.GamessUsEcp Proofs.GamessUsEcpDefs.
 From BSE Require Proofs.GamessUsSpec Proofs.GamessUsEcpSpec.
 
@@ -251,6 +251,18 @@ Print Assumptions gamess_us_high_momenta_refuted.
 Theorem gamess_us_fused_sp_unreadable : gus_roundtrip_sp_stmt.
 Proof. exact GamessUsSpec.gus_roundtrip_sp. Qed.
 Print Assumptions gamess_us_fused_sp_unreadable.
+
+Theorem gamess_us_whole_file_roundtrip : gus_all_roundtrip_stmt.
+Proof. exact GamessUsEcpSpec.gus_all_roundtrip. Qed.
+Print Assumptions gamess_us_whole_file_roundtrip.
+
+Theorem gamess_us_whole_file_write_total : gus_all_write_total_stmt.
+Proof. exact GamessUsEcpSpec.gus_all_write_total. Qed.
+Print Assumptions gamess_us_whole_file_write_total.
+
+Theorem gamess_us_whole_file_no_number_lost : gus_all_no_number_lost_stmt.
+Proof. exact GamessUsEcpSpec.gus_all_no_number_lost. Qed.
+Print Assumptions gamess_us_whole_file_no_number_lost.
 
 Theorem gamess_us_ecp_only_unreadable : gus_ecp_only_stmt.
 Proof. exact GamessUsEcpSpec.gus_ecp_only. Qed.
@@ -392,7 +404,7 @@ Proof. exact Cp2kSpec.cp2k_example. Qed.
 Example cp2k_ecp_example : cp2k_all_example_stmt.
 Proof. exact Cp2kEcpSpec.cp2k_all_example. Qed.
 
-(* ---- CFOUR / GENBAS (Model/Genbas.v, Model/GenbasEcp.v).  The electron part round-trips for every momentum; name and description are part of the text: a description starting with # or ! or looking like an ECP header makes the text unreadable (c4_roundtrip_desc_hash ...).  With ECPs the whole-file round trip is proved on instances only (c4ecp_example, c4ecp_range); a basis with ECPs only cannot be read back (c4ecp_ecp_only_example). ---- *)
+(* ---- CFOUR / GENBAS (Model/Genbas.v, Model/GenbasEcp.v).  The electron part round-trips for every momentum; name and description are part of the text: a description starting with # or ! or looking like an ECP header makes the text unreadable (c4_roundtrip_desc_hash ...).  The whole file with ECPs round-trips exactly too (c4ecp_roundtrip), for every ECP momentum 0..24 (c4ecp_range); a basis with ECPs only cannot be read back (c4ecp_ecp_only_example). ---- *)
 From BSE Require Import Model.Genbas Proofs.GenbasDefs Model.GenbasEcp Proofs.GenbasEcpDefs.
 From BSE Require Proofs.GenbasSpec Proofs.GenbasEcpSpec.
 
@@ -411,6 +423,18 @@ Print Assumptions cfour_no_number_lost.
 Theorem cfour_description_hash_refuted : c4_roundtrip_desc_hash_stmt.
 Proof. exact GenbasSpec.c4_roundtrip_desc_hash. Qed.
 Print Assumptions cfour_description_hash_refuted.
+
+Theorem cfour_whole_file_roundtrip : c4ecp_roundtrip_stmt.
+Proof. exact GenbasEcpSpec.c4ecp_roundtrip_exact. Qed.
+Print Assumptions cfour_whole_file_roundtrip.
+
+Theorem cfour_whole_file_write_total : c4ecp_write_total_stmt.
+Proof. exact GenbasEcpSpec.c4ecp_write_total. Qed.
+Print Assumptions cfour_whole_file_write_total.
+
+Theorem cfour_whole_file_no_number_lost : c4ecp_no_number_lost_stmt.
+Proof. exact GenbasEcpSpec.c4ecp_no_number_lost. Qed.
+Print Assumptions cfour_whole_file_no_number_lost.
 
 Theorem cfour_without_ecp_whole_file : c4ecp_roundtrip_no_ecp_stmt.
 Proof. exact GenbasEcpSpec.c4ecp_roundtrip_no_ecp. Qed.
@@ -506,6 +530,65 @@ Proof. exact Demon2kSpec.d2k_example. Qed.
 
 Example demon2k_ecp_example : d2k_ecp_example_stmt.
 Proof. exact Demon2kEcpSpec.d2k_ecp_example. Qed.
+
+(* ---- Molcas (Model/Molcas.v, Model/MolcasEcp.v): two writers, one reader.  The inline form (fmt 'molcas') can NEVER be read
+   back, whatever the input (mcas_roundtrip_refuted: the registered reader only understands the library form).  The library form
+   (fmt 'molcas_library') round-trips exactly, whole file, when the shell momenta of every element are contiguous from 0 and the
+   ECP momenta are [L, 0..L-1] (mcasl_all_roundtrip); a gap makes the text unreadable (mcasl_roundtrip_gap: CRENBL / CRENBS
+   elements without an s shell).  The first-author and reference strings the library writer prints, and the iteration order of
+   its set of cartesian letters (which depends on PYTHONHASHSEED: the output is not deterministic), are parameters. ---- *)
+From BSE Require Import Model.Molcas Proofs.MolcasDefs Model.MolcasEcp Proofs.MolcasEcpDefs.
+From BSE Require Proofs.MolcasSpec Proofs.MolcasEcpSpec.
+
+Theorem molcas_inline_write_total : mcas_write_total_stmt.
+Proof. exact MolcasSpec.mcas_write_total. Qed.
+Print Assumptions molcas_inline_write_total.
+
+Theorem molcas_inline_never_readable : mcas_roundtrip_refuted_stmt.
+Proof. exact MolcasSpec.mcas_roundtrip_refuted. Qed.
+Print Assumptions molcas_inline_never_readable.
+
+Theorem molcas_inline_no_number_lost : mcas_no_number_lost_stmt.
+Proof. exact MolcasSpec.mcas_no_number_lost. Qed.
+Print Assumptions molcas_inline_no_number_lost.
+
+Theorem molcas_library_roundtrip : mcasl_roundtrip_stmt.
+Proof. exact MolcasSpec.mcasl_roundtrip_exact. Qed.
+Print Assumptions molcas_library_roundtrip.
+
+Theorem molcas_library_whole_file_roundtrip : mcasl_all_roundtrip_stmt.
+Proof. exact MolcasEcpSpec.mcasl_all_roundtrip. Qed.
+Print Assumptions molcas_library_whole_file_roundtrip.
+
+Theorem molcas_library_whole_file_write_total : mcasl_all_write_total_stmt.
+Proof. exact MolcasEcpSpec.mcasl_all_write_total. Qed.
+Print Assumptions molcas_library_whole_file_write_total.
+
+Theorem molcas_library_no_number_lost : mcasl_no_number_lost_stmt.
+Proof. exact MolcasSpec.mcasl_no_number_lost. Qed.
+Print Assumptions molcas_library_no_number_lost.
+
+Theorem molcas_library_ecp_no_number_lost : mcasl_ecp_no_number_lost_stmt.
+Proof. exact MolcasEcpSpec.mcasl_ecp_no_number_lost. Qed.
+Print Assumptions molcas_library_ecp_no_number_lost.
+
+Theorem molcas_library_momentum_gap_refuted : mcasl_roundtrip_gap_stmt.
+Proof. exact MolcasSpec.mcasl_roundtrip_gap. Qed.
+Print Assumptions molcas_library_momentum_gap_refuted.
+
+Theorem molcas_library_cartesian_tag_lost : mcasl_cartesian_stmt.
+Proof. exact MolcasSpec.mcasl_cartesian. Qed.
+Print Assumptions molcas_library_cartesian_tag_lost.
+
+Theorem molcas_library_second_coefficient_row_lost : mcasl_ecp_rows_stmt.
+Proof. exact MolcasEcpSpec.mcasl_ecp_rows. Qed.
+Print Assumptions molcas_library_second_coefficient_row_lost.
+
+Example molcas_example : mcas_example_stmt.
+Proof. exact MolcasSpec.mcas_example. Qed.
+
+Example molcas_library_ecp_example : mcasl_ecp_example_stmt.
+Proof. exact MolcasEcpSpec.mcasl_ecp_example. Qed.
 
 (* ---- the whole Gaussian94 file: electron blocks + ECP blocks (Model/G94Ecp.v).  The reader takes the momenta of the potentials
    from the `-ECP lmax nelec` line and the ORDER of the blocks, never from their titles: the round trip holds exactly when the
